@@ -235,7 +235,15 @@ impl Check for C09 {
             }
             for (pi, path) in paths.iter().enumerate() {
                 for (ai, arr) in arrs.iter().enumerate() {
-                    for &off in &offs {
+                    // besides the fixed offsets: offsets that end exactly on a dash boundary of this array
+                    let mut offs_a = offs.clone();
+                    offs_a.push(arr[0]);
+                    if arr.len() >= 2 {
+                        offs_a.push(arr[0] + arr[1]);
+                        offs_a.push(-arr[arr.len() - 1]);
+                    }
+                    let nfixed = offs.len();
+                    for (oi, &off) in offs_a.iter().enumerate() {
                         // a period that is not exactly representable makes the phase of a huge
                         // offset depend on the rounding of the sum itself: not asserted
                         if off.abs() > 1e5 && arr.iter().any(|e| e.fract() != 0.0) {
@@ -243,7 +251,7 @@ impl Check for C09 {
                         }
                         for &(w, cap, join) in &styles {
                             // thin the product: every style with the first offsets, one style otherwise
-                            if q && (ai + pi) % 2 == 1 && (w, cap, join) != styles[0] {
+                            if q && ((ai + pi) % 2 == 1 || oi >= nfixed) && (w, cap, join) != styles[0] {
                                 continue;
                             }
                             let st = StyleSpec { width: w, cap, join, miter: 4.0, dash: arr.clone(), offset: off };
